@@ -212,6 +212,11 @@ def parse_terse(out):
             res.setdefault(cur_h, {"text": "", "failed_checks": [], "status": None, "stubs": []})
             i += 1
             continue
+        m = re.match(r"^Thread (\d+):\s+- Stub: (.*)$", ln)
+        if m and thread_h.get(m.group(1)) in res:
+            res[thread_h[m.group(1)]]["stubs"].append(m.group(2))
+            i += 1
+            continue
         m = re.match(r"^Thread (\d+): ?$", ln)
         if m:
             cur_h = thread_h.get(m.group(1))
@@ -224,7 +229,7 @@ def parse_terse(out):
             if m:
                 loc = lines[i + 1].strip() if i + 1 < len(lines) else ""
                 r["failed_checks"].append((m.group(1), loc))
-            m = re.match(r"^\s*- Stub: (.*)$", ln)
+            m = re.match(r"^(?:Thread \d+: )?\s*- Stub: (.*)$", ln)
             if m:
                 r["stubs"].append(m.group(1))
             if ln.startswith("VERIFICATION:- "):
